@@ -1007,6 +1007,11 @@ class Interp(object):
     def eval_ListComp(self, node, frame):
         sub = self.comp_frame(frame)
         first = self.norm_iterable(self.eval(node.generators[0].iter, frame))
+        g0 = node.generators[0]
+        if len(node.generators) == 1 and not g0.ifs and isinstance(g0.target, ast.Name) and \
+                isinstance(node.elt, ast.Name) and node.elt.id == g0.target.id and isinstance(first, GenVal):
+            # [x for x in gen] is list(gen)
+            return self.call(self.builtins['list'], [first], {})
         if isinstance(first, SeqVal) and self.seq_len_unknown(first):
             return self.map_over_seq(node, first, sub)
         out = []
